@@ -49,10 +49,17 @@ fn maybe_unrequested_soft(seed: u64, sc: &mut Scenario, one_in: usize) {
     sc.solves[0].problem = p;
 }
 
-fn swarm(seed: u64, base: GenParams) -> GenParams {
+fn swarm(seed: u64, base: GenParams, tier: Tier) -> GenParams {
     // swarm: perturb the shape parameters per run
     let mut r = Rng::stream(seed, "swarm");
     let mut p = base;
+    if tier == Tier::Thorough && r.chance(1, 3) {
+        // deeper bound: larger universes (the reference stays complete; it may give up => inconclusive)
+        p.max_packages = p.max_packages * 2;
+        p.max_candidates += 3;
+        p.max_solvables = 96;
+        p.max_root_reqs += 2;
+    }
     p.max_packages = r.range(p.min_packages.max(1), p.max_packages);
     p.max_candidates = r.range(1, p.max_candidates);
     p.max_reqs = r.range(1, p.max_reqs);
@@ -92,7 +99,7 @@ impl Property for C01 {
     fn rule(&self) -> &'static str {
         "seeded world (<=48 solvables; unions, root constraints, locks, favored, exclusions, Unknown, missing, cycles, soft requirements, all hint patterns) x sync/async schedule x activity params x hash salt; oracle: every Ok(S) satisfies Valid(S) evaluated on the provider tables; non-trivial = solve returned Ok with >= 2 solvables; distinct = (world, completion trace, fault plan) hash"
     }
-    fn gen(&self, seed: u64, _tier: Tier) -> Vec<Scenario> {
+    fn gen(&self, seed: u64, tier: Tier) -> Vec<Scenario> {
         let mut base = if seed % 3 == 0 {
             GenParams::conflict_rich()
         } else {
@@ -101,7 +108,7 @@ impl Property for C01 {
         if seed % 2 == 0 {
             base.max_soft = 3;
         }
-        let mut sc = std_scenario(seed, &swarm(seed, base), None);
+        let mut sc = std_scenario(seed, &swarm(seed, base, tier), None);
         maybe_unrequested_soft(seed, &mut sc, 6);
         vec![sc]
     }
@@ -148,13 +155,13 @@ impl Property for C02 {
     fn rule(&self) -> &'static str {
         "conflict-rich seeded world (narrow version sets, constrains, locks, diamonds) x hints x rank/id permutation x schedule x activity params; oracle: verdict of solve (no soft requirements) = verdict of an independent complete DPLL over the documented rules; non-trivial = Unsolvable verdict, or Ok on an instance whose first-choice closure is inconsistent (search had to deviate); distinct = (world, trace, plan) hash"
     }
-    fn gen(&self, seed: u64, _tier: Tier) -> Vec<Scenario> {
+    fn gen(&self, seed: u64, tier: Tier) -> Vec<Scenario> {
         let base = if seed % 4 == 0 {
             GenParams::wide()
         } else {
             GenParams::conflict_rich()
         };
-        vec![std_scenario(seed, &swarm(seed, base), None)]
+        vec![std_scenario(seed, &swarm(seed, base, tier), None)]
     }
     fn judge(&self, sc: &Scenario) -> Verdict {
         let rec = execute(sc);
@@ -428,7 +435,7 @@ impl Property for C03 {
     fn rule(&self) -> &'static str {
         "conflict-rich seeded worlds; only Unsolvable results are evaluated: every edge of Conflict::graph is checked against the provider tables, every node must be reachable from root, and the CNF made of the drawn facts alone (+ at-most-one inside forbid-connected components) must be UNSAT by the reference DPLL; non-trivial = graph with >= 4 edges; distinct = (world, trace, plan) hash"
     }
-    fn gen(&self, seed: u64, _tier: Tier) -> Vec<Scenario> {
+    fn gen(&self, seed: u64, tier: Tier) -> Vec<Scenario> {
         let mut base = GenParams::conflict_rich();
         if seed % 3 == 0 {
             base = GenParams::wide();
@@ -436,7 +443,7 @@ impl Property for C03 {
         // bias towards unsatisfiable instances
         base.max_root_reqs = 5;
         base.max_root_constraints = 3;
-        let mut sc = std_scenario(seed, &swarm(seed, base), None);
+        let mut sc = std_scenario(seed, &swarm(seed, base, tier), None);
         sc.render = true;
         vec![sc]
     }
@@ -480,7 +487,7 @@ impl Property for C04 {
     fn rule(&self) -> &'static str {
         "widest swarm (hints x constraints/exclusions/locks, soft requirements x exclusions/unrequested packages, self-constraints, cycles, empty and missing packages, duplicate requirements; sync and async; both build profiles); oracle: no panic, no deadlock, no step/poll budget, conflict graph + graphviz(x2) + user-friendly message finish within max(64KiB, 2KiB*(nodes+edges)^2); non-trivial = world with >= 4 solvables and at least one fault kind fired; distinct = (world, trace, plan) hash"
     }
-    fn gen(&self, seed: u64, _tier: Tier) -> Vec<Scenario> {
+    fn gen(&self, seed: u64, tier: Tier) -> Vec<Scenario> {
         let mut r = Rng::stream(seed, "c04");
         let mut base = match r.below(4) {
             0 | 1 => GenParams::conflict_rich(),
@@ -501,7 +508,7 @@ impl Property for C04 {
             base.max_packages = 12;
             base.max_solvables = 60;
         }
-        let mut sc = std_scenario(seed, &swarm(seed, base), None);
+        let mut sc = std_scenario(seed, &swarm(seed, base, tier), None);
         maybe_unrequested_soft(seed, &mut sc, 4);
         sc.render = true;
         vec![sc]
@@ -538,13 +545,13 @@ impl Property for C05 {
     fn rule(&self) -> &'static str {
         "satisfiable conflict-rich worlds (decoy candidates whose dependency trees end in a conflict) with and without soft requirements; oracle: S is contained in the least fixpoint Reach(root requirements + accepted soft solvables) along requirement edges satisfied inside S; non-trivial = Ok on an instance whose first-choice closure is inconsistent (backtracking happened) with >= 3 solvables; distinct = (world, trace, plan) hash"
     }
-    fn gen(&self, seed: u64, _tier: Tier) -> Vec<Scenario> {
+    fn gen(&self, seed: u64, tier: Tier) -> Vec<Scenario> {
         let mut base = GenParams::conflict_rich();
         base.max_constrains = 3;
         if seed % 2 == 0 {
             base.max_soft = 2;
         }
-        vec![std_scenario(seed, &swarm(seed, base), None)]
+        vec![std_scenario(seed, &swarm(seed, base, tier), None)]
     }
     fn judge(&self, sc: &Scenario) -> Verdict {
         let rec = execute(sc);
@@ -612,7 +619,7 @@ impl Property for C06 {
             base.max_soft = 2;
         }
         base.max_root_reqs = 5;
-        let mut sc = std_scenario(seed, &swarm(seed, base), Some(false));
+        let mut sc = std_scenario(seed, &swarm(seed, base, tier), Some(false));
         sc.runtime = RuntimeKind::NowOrNever;
         sc.render = true;
         let mut r = Rng::stream(seed, "salts");
@@ -667,9 +674,9 @@ impl Property for C07 {
     fn rule(&self) -> &'static str {
         "mostly conflict-free worlds (chains, diamonds, cycles, unions) x favored x rank permutation x hints x schedule; precondition decided by the reference: FirstChoice closure is a valid selection and every reachable requirement is met only by its own first choice (else skipped); oracle: solve = Ok(S) with set(S) = FirstChoice; non-trivial = precondition holds and >= 3 solvables installed; distinct = (world, trace, plan) hash"
     }
-    fn gen(&self, seed: u64, _tier: Tier) -> Vec<Scenario> {
+    fn gen(&self, seed: u64, tier: Tier) -> Vec<Scenario> {
         let base = GenParams::conflict_free();
-        vec![std_scenario(seed, &swarm(seed, base), None)]
+        vec![std_scenario(seed, &swarm(seed, base, tier), None)]
     }
     fn judge(&self, sc: &Scenario) -> Verdict {
         let p = hard_only(&sc.solves[0].problem);
@@ -718,12 +725,12 @@ impl Property for C08 {
     fn rule(&self) -> &'static str {
         "conflict-rich worlds whose root requirements are all Single (distinct and repeated packages), no soft requirements, random activity params; F = first-ranked candidate of every root requirement; precondition (reference DPLL): problem AND all of F is satisfiable (else skipped); oracle: F is a subset of S; non-trivial = precondition holds and the first-choice closure is inconsistent (a conflict below the roots had to be resolved); distinct = (world, trace, plan) hash"
     }
-    fn gen(&self, seed: u64, _tier: Tier) -> Vec<Scenario> {
+    fn gen(&self, seed: u64, tier: Tier) -> Vec<Scenario> {
         let mut base = GenParams::conflict_rich();
         base.p_union = if seed % 4 == 0 { 2 } else { 0 };
         base.max_root_reqs = 3;
         base.max_reqs = 3;
-        let mut sc = std_scenario(seed, &swarm(seed, base), None);
+        let mut sc = std_scenario(seed, &swarm(seed, base, tier), None);
         // root requirements must be single version sets
         let w = sc.world.clone();
         for r in sc.solves[0].problem.requirements.iter_mut() {
@@ -851,13 +858,13 @@ impl Property for C09 {
     fn rule(&self) -> &'static str {
         "worlds without availability hints; sync and async; single solves and sequences of 2-3 solves on one solver; oracle over the provider call log: (a) causality of every get_dependencies / get_candidates start w.r.t. dependency sets already delivered, (b) at most one request per name / solvable per solver unless the earlier one was dropped in flight, (c) on instances meeting C07's precondition the fetched solvables equal the first-choice closure and the fetched names equal those mentioned by root and the closure; non-trivial = at least 3 get_dependencies calls; distinct = (world, trace, plan) hash"
     }
-    fn gen(&self, seed: u64, _tier: Tier) -> Vec<Scenario> {
+    fn gen(&self, seed: u64, tier: Tier) -> Vec<Scenario> {
         let base = match seed % 3 {
             0 => GenParams::conflict_free(),
             1 => GenParams::conflict_rich(),
             _ => GenParams::wide(),
         };
-        let mut params = swarm(seed, base);
+        let mut params = swarm(seed, base, tier);
         params.hint_weights = [1, 0, 0, 0];
         if seed % 5 == 0 {
             params.max_soft = 2;
@@ -952,7 +959,7 @@ impl Property for C10 {
             0 => GenParams::wide(),
             _ => GenParams::conflict_rich(),
         };
-        let mut params = swarm(seed, base);
+        let mut params = swarm(seed, base, tier);
         if seed % 2 == 0 {
             params.max_soft = 2;
         }
@@ -1100,7 +1107,7 @@ impl Property for C11 {
     fn rule(&self) -> &'static str {
         "asynchronous runs with wide fan-out (roots with 1..8 requirements on distinct packages, solvables with many requirements / constrains, unions), no cancellation, no re-entrancy; oracle at every quiescent point of the schedule (root future Pending, nothing woken): every package mentioned by a dependency set that was already delivered (root's included) has a get_candidates start in the history; non-trivial = >= 2 quiescent points and max in-flight >= 2; distinct = (world, completion trace) hash"
     }
-    fn gen(&self, seed: u64, _tier: Tier) -> Vec<Scenario> {
+    fn gen(&self, seed: u64, tier: Tier) -> Vec<Scenario> {
         let mut base = match seed % 2 {
             0 => GenParams::wide(),
             _ => GenParams::conflict_free(),
@@ -1109,7 +1116,7 @@ impl Property for C11 {
         base.max_reqs = 5;
         base.max_constrains = 3;
         base.max_packages = 10;
-        let params = swarm(seed, base);
+        let params = swarm(seed, base, tier);
         let mut sc = std_scenario(seed, &params, Some(true));
         sc.yield_mask |= Y_CAND;
         if seed % 3 == 0 {
@@ -1170,7 +1177,7 @@ impl Property for C12 {
     fn rule(&self) -> &'static str {
         "for each seeded (world, problem incl. soft requirements, sync or async schedule): a baseline run counts P polls of should_cancel_with_value, then EVERY poll index k < P (all of them when P <= 64, else 64 seeded indices plus 0, 1, P-1) is faulted twice: persistent from k and transient at k only, plus one never-firing plan (k = P + 5); oracle: result is Cancelled carrying a token handed out at a fired poll, no get_candidates / get_dependencies start after the first Some, never Ok / Unsolvable; never-firing plan: result and provider call sequence equal the baseline; non-trivial = cancellation fired at a poll index >= 1; distinct = (world, trace, fault plan) hash"
     }
-    fn gen(&self, seed: u64, _tier: Tier) -> Vec<Scenario> {
+    fn gen(&self, seed: u64, tier: Tier) -> Vec<Scenario> {
         let mut base = match seed % 3 {
             0 => GenParams::wide(),
             _ => GenParams::conflict_rich(),
@@ -1178,7 +1185,7 @@ impl Property for C12 {
         if seed % 2 == 0 {
             base.max_soft = 2;
         }
-        let mut sc = std_scenario(seed, &swarm(seed, base), None);
+        let mut sc = std_scenario(seed, &swarm(seed, base, tier), None);
         // explicit trace-free policies only (the schedule must not depend on the fault)
         sc.spurious_p = 0;
         let base_rec = execute(&sc);
@@ -1328,7 +1335,7 @@ impl Property for C13 {
     fn rule(&self) -> &'static str {
         "histories of 2-5 solve calls on one solver over one seeded world (same problem again, different requirements / constraints / soft lists, UNSAT then SAT), with cancellation (persistent during one call, cleared before the next) striking at a seeded poll index, also while requests are in flight; sync and async; oracle per call: terminates (no deadlock / budget), does not crash where a fresh solver does not, verdict = reference, Ok(S) valid; across the history: no get_candidates(name) / get_dependencies(solvable) whose earlier request was delivered is started again; non-trivial = history with >= 2 completed calls, at least one of which reuses cached metadata; distinct = (world, trace, plan) hash"
     }
-    fn gen(&self, seed: u64, _tier: Tier) -> Vec<Scenario> {
+    fn gen(&self, seed: u64, tier: Tier) -> Vec<Scenario> {
         let mut base = match seed % 3 {
             0 => GenParams::wide(),
             1 => GenParams::conflict_rich(),
@@ -1337,7 +1344,7 @@ impl Property for C13 {
         if seed % 2 == 0 {
             base.max_soft = 2;
         }
-        let params = swarm(seed, base);
+        let params = swarm(seed, base, tier);
         let mut wr = Rng::stream(seed, "world");
         let n = 2 + wr.below(4);
         let (w, mut ps) = gen_world(&mut wr, &params, n);
@@ -1496,7 +1503,7 @@ impl Property for C14 {
     fn rule(&self) -> &'static str {
         "hard problem + 1..5 soft solvables of every category (compatible, incompatible, duplicates of the hard solution, other versions of installed packages, excluded, locked-out, Unknown dependencies, packages nobody requests, conflicts below the soft solvable) in seeded order; sync and async; oracle: (a) hard problem satisfiable by the reference => Ok, (b) Valid(S) with the documented exemption, (c) a soft X for which even the lenient reference finds hard AND X unsatisfiable is absent from S, (d) when FirstChoice(hard) united with the first-choice closures of all soft solvables is consistent and exclusive under the strict rules every soft solvable is in S; non-trivial = at least one soft solvable accepted and one rejected, or (d) applied; distinct = (world, trace, plan) hash"
     }
-    fn gen(&self, seed: u64, _tier: Tier) -> Vec<Scenario> {
+    fn gen(&self, seed: u64, tier: Tier) -> Vec<Scenario> {
         let mut base = match seed % 3 {
             0 => GenParams::conflict_free(),
             1 => GenParams::conflict_rich(),
@@ -1504,7 +1511,7 @@ impl Property for C14 {
         };
         base.max_soft = 5;
         base.max_root_reqs = 3;
-        let mut sc = std_scenario(seed, &swarm(seed, base), None);
+        let mut sc = std_scenario(seed, &swarm(seed, base, tier), None);
         maybe_unrequested_soft(seed, &mut sc, 4);
         if sc.solves[0].problem.soft.is_empty() && !sc.world.solvables.is_empty() {
             let mut r = Rng::stream(seed, "soft");
